@@ -289,6 +289,8 @@ def cases(tier):
     add("lmi-unadded", lmis=['sym2'], lmi_objects=True, lmi_unadded=True, lmi_unadded_first=True)
     add("qg-late-leaf", fclass='qg', stationary=False)
     add("quad-class-lmi", fclass='quad')
+    add("quad-function-lmi", fclass='quad', function_lmi=True)      # function-level LMI sent AFTER the class LMI
+    add("function-lmi-and-user-lmi", lmis=['one'], function_lmi=True, function_lmi_with_constraint=True)
     add("convex-prox", fclass='convex', steps=['prox'], metrics=2)
     add("heuristic-gd", kind='heuristic')
     add("heuristic-lmi", kind='heuristic', lmis=['sym2'])
